@@ -440,14 +440,14 @@ def run_container(cname, trace, T, data, enc, model, fs, rp, compare, Rtc, res):
         if enc != 'utf-8':
             return
         with _Patched(fs):
-            got, exc = _call(lambda: penman.load('/sim/in.penman', model=model))
+            got, exc = _call(lambda: penman.load(fs.real('/sim/in.penman'), model=model))
     elif cname == 'simpath_pathlib':
         import pathlib
         with _Patched(fs):
-            got, exc = _call(lambda: penman.load(pathlib.Path('/sim/in.penman'), model=model, encoding=enc))
+            got, exc = _call(lambda: penman.load(pathlib.Path(fs.real('/sim/in.penman')), model=model, encoding=enc))
     elif cname == 'simpath_enc':
         with _Patched(fs):
-            got, exc = _call(lambda: penman.load('/sim/in.penman', model=model, encoding=enc))
+            got, exc = _call(lambda: penman.load(fs.real('/sim/in.penman'), model=model, encoding=enc))
     elif cname == 'realfile':
         d = tempfile.mkdtemp(prefix='vsim-c09-')
         try:
@@ -590,7 +590,7 @@ def roundtrips(trace, R, model, fs, k, res):
     # the named file already exists with other content: dump must replace it, also with zero graphs
     fs.put('/sim/out2.penman', b'(stale / content :of (an / earlier-dump))\n', wp)
     with _Patched(fs):
-        _, exc = _call(lambda: penman.dump(R, '/sim/out2.penman', model=model, indent=indent,
+        _, exc = _call(lambda: penman.dump(R, fs.real('/sim/out2.penman'), model=model, indent=indent,
                                            compact=compact))
     if exc:
         res.violate('roundtrip', 'dump-raised', via='path', error=digest.canon_exc(exc))
@@ -599,11 +599,11 @@ def roundtrips(trace, R, model, fs, k, res):
     import pathlib
     fs.plans['/sim/out3.penman'] = wp
     with _Patched(fs):
-        _, exc = _call(lambda: penman.dump(R, pathlib.Path('/sim/out3.penman'), model=model, indent=indent,
+        _, exc = _call(lambda: penman.dump(R, pathlib.Path(fs.real('/sim/out3.penman')), model=model, indent=indent,
                                            compact=compact))
-    if exc or '/sim/out3.penman' not in fs.files or fs.durable('/sim/out3.penman') != b2:
+    if exc or not fs.exists('/sim/out3.penman') or fs.durable('/sim/out3.penman') != b2:
         res.violate('roundtrip', 'dump-to-pathlib-path-differs', error=digest.canon_exc(exc) if exc else None,
-                    created='/sim/out3.penman' in fs.files, n_graphs=len(R))
+                    created=fs.exists('/sim/out3.penman'), n_graphs=len(R))
         return
     denc = trace.get('dump_encoding')
     if denc:
@@ -611,9 +611,9 @@ def roundtrips(trace, R, model, fs, k, res):
         # business, once per file
         fs.plans['/sim/out4.penman'] = wp
         with _Patched(fs):
-            _, exc = _call(lambda: penman.dump(R, '/sim/out4.penman', model=model, indent=indent, compact=compact,
+            _, exc = _call(lambda: penman.dump(R, fs.real('/sim/out4.penman'), model=model, indent=indent, compact=compact,
                                                encoding=denc))
-            got, exc2 = (None, exc) if exc else _call(lambda: penman.load('/sim/out4.penman', model=model, encoding=denc))
+            got, exc2 = (None, exc) if exc else _call(lambda: penman.load(fs.real('/sim/out4.penman'), model=model, encoding=denc))
         res.hit('probe.dump_with_encoding')
         if exc:
             res.violate('roundtrip', 'dump-raised', via='path with encoding ' + denc, error=digest.canon_exc(exc))
@@ -624,7 +624,8 @@ def roundtrips(trace, R, model, fs, k, res):
             res.violate('roundtrip', 'dump-with-encoding-is-not-the-encoded-text', encoding=denc,
                         expected_bytes=len(want_bytes), got_bytes=len(fs.durable('/sim/out4.penman')),
                         head=fs.durable('/sim/out4.penman')[:80].hex())
-    if 'w' not in [m for p, m in fs.opened if p == '/sim/out2.penman']:
+    if [m for p, m in fs.opened if p == '/sim/out2.penman'] and \
+            'w' not in [m for p, m in fs.opened if p == '/sim/out2.penman']:
         res.violate('roundtrip', 'dump-path-not-opened-for-writing', opened=fs.opened)
     if trace.get('run', 0) % 8 == 1 or trace.get('real_dump'):
         # the same on the real file system: the named file exists already and is longer than the dump
@@ -657,7 +658,7 @@ def roundtrips(trace, R, model, fs, k, res):
         check(name, got, exc)
         if name == 'dump_path':
             with _Patched(fs):
-                got, exc = _call(lambda: penman.load('/sim/back.penman', model=model))
+                got, exc = _call(lambda: penman.load(fs.real('/sim/back.penman'), model=model))
             check('dump_path_load_path', got, exc)
 
 
@@ -689,7 +690,7 @@ def read_fault(trace, f, T, data, enc, model, k, res):
     if f.get('via') == 'simpath' and f['kind'] == 'EIO':
         # the eager path API on the same faulty device: the error must surface from load()
         with _Patched(fs):
-            _, lexc = _call(lambda: penman.load('/sim/f.penman', model=model, encoding=enc))
+            _, lexc = _call(lambda: penman.load(fs.real('/sim/f.penman'), model=model, encoding=enc))
         if not (isinstance(lexc, OSError) and lexc.errno == errno.EIO):
             res.violate('read_fault', 'injected-EIO-did-not-surface', at=at, text=T, api='load(path)',
                         surfaced=digest.canon_exc(lexc) if lexc else None)
@@ -767,7 +768,7 @@ def write_fault(trace, f, R, model, k, res):
     excs = []
     if f.get('via') == 'simpath':
         with _Patched(fs):
-            _, e = _call(lambda: penman.dump(R, '/sim/w.penman', model=model, indent=indent, compact=compact))
+            _, e = _call(lambda: penman.dump(R, fs.real('/sim/w.penman'), model=model, indent=indent, compact=compact))
         excs.append(e)
         own = True
     else:
@@ -780,6 +781,9 @@ def write_fault(trace, f, R, model, k, res):
     raw = fs.writers.get('/sim/w.penman')
     fired = bool(raw is not None and raw.error_fired)
     durable = bytes(raw.durable) if raw is not None else b''
+    if raw is None and fs.exists('/sim/w.penman'):
+        # written without going through the shadowed open: no fault could be injected, judge what is on disk
+        durable = fs.durable('/sim/w.penman')
     res.event('write_fault', f['kind'], at, fired, len(durable),
               [digest.canon_exc(e) if e else None for e in excs])
     if not clean.startswith(durable):
@@ -866,7 +870,7 @@ def stream_copy(trace, c, T, data, enc, R, model, k, res):
     excs = []
     if c.get('sink') == 'simpath':
         with _Patched(fs):
-            _, e = _call(lambda: penman.dump(source, '/sim/cout.penman', model=model, indent=indent, compact=compact))
+            _, e = _call(lambda: penman.dump(source, fs.real('/sim/cout.penman'), model=model, indent=indent, compact=compact))
         excs.append(e)
     else:
         fh_out = fs.open('/sim/cout.penman', 'w', encoding='utf-8')
@@ -878,6 +882,8 @@ def stream_copy(trace, c, T, data, enc, R, model, k, res):
         _call(fh_in.close)
     raw = fs.writers.get('/sim/cout.penman')
     durable = bytes(raw.durable) if raw is not None else None
+    if raw is None and fs.exists('/sim/cout.penman'):
+        durable = fs.durable('/sim/cout.penman')      # written outside the shadowed open
     wfired = bool(raw is not None and raw.error_fired)
     res.hit('probe.stream_copy')
     res.event('stream_copy', src_kind, c.get('sink'), side, kind, at, line_at, None if durable is None else len(durable),
